@@ -39,6 +39,10 @@ H('k1_u128_round_trip_le_bytes', 'trace', ['tarpc/src/trace.rs::u128_serde::seri
   '128-bit ids are written as their 16 little-endian bytes and read back exactly, for every u128')
 H('k6_otel_id_conversions_round_trip', 'trace', ['tarpc/src/trace.rs::From<TraceId> for opentelemetry TraceId (and back)', 'tarpc/src/trace.rs::From<SpanId> for opentelemetry SpanId (and back)', 'tarpc/src/trace.rs::From<SamplingDecision> for TraceFlags'],
   'trace/span ids survive the OpenTelemetry conversions both ways; sampling decision maps to the sampled flag')
+H('k1_cancel_shape_is_value_independent', 'schema', ['tarpc/src/lib.rs::ClientMessage (derived Serialize)', 'tarpc/src/trace.rs::Context (derived Serialize)'],
+  'the serde call sequence of a Cancel message does not depend on the values carried (no field skipped for some values); both fields declared and written')
+H('k1_request_shape_is_value_independent', 'schema', ['tarpc/src/lib.rs::ClientMessage/Request (derived Serialize)', 'tarpc/src/context.rs::Context (derived Serialize + absolute_to_relative_time)'],
+  'the serde call sequence of a Request message does not depend on the values carried', tier='thorough', stubs=['std::time::Instant::now -> symbolic clock (verif_kani_support::fake_now)'], timeout=1500)
 
 # ---- K3 time arithmetic (C05, C06, C07, C16)
 CLK = ['std::time::Instant::now -> symbolic clock (verif_kani_support::fake_now)']
@@ -75,6 +79,10 @@ H('k4_after_wraps_inner_before_error', 'hooks', ['tarpc/src/server/request_hook/
   'nesting after(before(s)): the after-hook runs exactly once also on an inner before-hook error')
 H('k4_cons_first_then_rest_any_rest', 'hooks_before', ['tarpc/src/server/request_hook/before.rs::BeforeRequestCons::before'],
   'induction step: Cons(first, rest) for an arbitrary rest: first then (only if Ok) rest, rest sees first\'s context, first error returned')
+H('k4_cons_then_appends_at_end_any_rest', 'hooks_before', ['tarpc/src/server/request_hook/before.rs::BeforeRequestCons::then'],
+  'induction step for then: Cons(first, rest).then(next) runs first, rest, next for an arbitrary list rest (whose own then appends at its end)')
+H('k4_chain_of_three_order', 'hooks', ['tarpc/src/server/request_hook/before.rs::BeforeRequestCons::then', 'tarpc/src/server/request_hook/before.rs::BeforeRequestNil::then', 'tarpc/src/server/request_hook/before.rs::BeforeRequestCons::before'],
+  'before().then(a).then(b).then(c) runs a, b, c with context threading and short-circuit')
 # ---- K5 stubs (C20)
 H('k5_cycle_next_is_counter_mod_len', 'cycle', ['tarpc/src/client/stub/load_balance.rs::round_robin::cycle::State::next'],
   'next() returns element counter % len and advances the counter by one (wrapping); full domain in the counter',
